@@ -261,6 +261,8 @@ def do_batch(run, step):
     final = str(mc)
     run.stats['batch.merged'] += 1
     run.cov.add(('merge', strict, min(len(failing), 4), bool(crash)))
+    if crash and strict and failing and mids.index(failing[0][0]) < mids.index(crash[0]):
+        crash = None        # a strict merge legitimately stops at the first merge error, before that message
     if crash:
         # a built-in exception inside a merge: C12 - the non-strict merge cannot run to the end
         if exc_m is None or isinstance(exc_m, MX.MosRoMgrException):
